@@ -129,3 +129,21 @@ func init() {
 		},
 	})
 }
+
+func init() {
+	// C07 — sequential half: conditional semantics against the model, incl. If-Match on version-id deletes
+	Register(&Scenario{
+		Prop: "C07", Name: "conditional-history",
+		Rule: "generated sequential histories dense in conditional operations (If-None-Match:* and If-Match puts and multipart completes, If-Match key-only deletes, If-Match deletes of explicit version ids with the ETag of that version, of another version, or a bogus one) in unversioned and versioned buckets; oracle: success exactly when the reference model's precondition on the object being replaced/removed holds, state equal to the model afterwards; non-trivial = at least one acknowledged mutation",
+		Real: realStack,
+		Run: func(rc *RunCtx) (*Violation, error) {
+			g := rc.Gen()
+			b, k := stdBucketsKeys(g)
+			cfg := DriverCfg{Buckets: b[:1], Keys: k[:2], WVersioning: 3, WPut: 12, WGet: 1, WDelete: 6, WDeleteVersion: 10, WMultipart: 8, WCopy: 2,
+				CondWrites: true,
+				BodySizes:  []int{0, 1, 50, 2000},
+				Oracles:    map[string]bool{OContent: true, OErrKind: true, OVersions: true}}
+			return runHistory(rc, cfg, false, opsFor(rc, 35, 80), nil)
+		},
+	})
+}
